@@ -55,11 +55,32 @@ def one_case(out: Outcome, rng, cls: str, p: dict, pre: list, post: list, runner
                 extra_posts += [[float(b)] * n1 + [float(1 - b)] * n2 for b in (0, 1) for n1 in (10, 40, 120) for n2 in (30, 150)]
     except Exception:  # noqa: BLE001
         pass
+    # every public attribute reads as on a new instance - by enumeration of the class's public properties, not by a list of names
+    try:
+        ra, rf = dets.public_reads(a.det), dets.public_reads(dets.make(cls, p))
+        for name in sorted(ra):
+            if name in rf and ra[name] != rf[name]:
+                out.violation(f"{cls}: after reset() the public attribute `{name}` reads {str(ra[name])[:120]}, on a new instance {str(rf[name])[:120]}",
+                              {"class": cls, "params": p, "pre": pre, "post": [], "attribute": name})
+                break
+        out.count("public_attributes_compared_after_reset", len(ra))
+    except Exception:  # noqa: BLE001
+        out.count("public_attribute_comparison_failed")
     k0 = len(a.obs) - 1
     feed(cls, a, post, state)
     b = dets.Runner("a", cls, p)
     feed(cls, b, post, state)
     runners.extend([a, b])
+    if a.err is None and b.err is None and (cls != "KSWIN" or (a.tape_ok and b.tape_ok)):
+        try:
+            ra, rf = dets.public_reads(a.det), dets.public_reads(b.det)
+            for name in sorted(ra):
+                if name in rf and ra[name] != rf[name]:
+                    out.violation(f"{cls}: after reset() and {len(post)} updates the public attribute `{name}` reads {str(ra[name])[:120]}, "
+                                  f"on a new instance fed the same updates {str(rf[name])[:120]}", {"class": cls, "params": p, "pre": pre, "post": post, "attribute": name})
+                    break
+        except Exception:  # noqa: BLE001
+            out.count("public_attribute_comparison_failed")
     out.count("resets_in_drift" if at_reset[0] else ("resets_in_warning" if at_reset[1] else "resets_in_control"))
     rep = {"class": cls, "params": p, "pre": pre, "post": post}
     if cls == "BOCD" and a.err is None and b.err is None:
